@@ -460,3 +460,207 @@ impl<T> IntoIterator for HashSet<T> {
         SetIntoIter { items: self.items, i: 0 }
     }
 }
+
+// ------------------------------------------------------------------------------------------
+// Ordered containers: sorted inline arrays standing in for BTreeSet / BTreeMap (iteration in
+// key order, as documented for the std types).
+
+#[derive(Clone, Debug)]
+pub struct BTreeSet<T> {
+    items: [Option<T>; CAP],
+    n: usize,
+}
+impl<T> Default for BTreeSet<T> {
+    fn default() -> Self {
+        BTreeSet { items: [None, None, None, None], n: 0 }
+    }
+}
+/// insert `t` at position `pos` of the first `n` slots, shifting the rest up
+fn insert_at<T>(a: &mut [Option<T>; CAP], pos: usize, n: usize, t: T) {
+    assert!(n < CAP, "E6 bound: more than CAP entries in an abstract ordered container");
+    let mut j = n;
+    while j > pos {
+        let prev = slot_mut(a, j - 1).take();
+        *slot_mut(a, j) = prev;
+        j -= 1;
+    }
+    *slot_mut(a, pos) = Some(t);
+}
+impl<T: Ord> BTreeSet<T> {
+    pub fn new() -> Self {
+        Self::default()
+    }
+    pub fn len(&self) -> usize {
+        self.n
+    }
+    /// position of the first element >= t, and whether it is equal
+    fn search(&self, t: &T) -> (usize, bool) {
+        let mut i = 0;
+        while i < CAP {
+            if i < self.n {
+                let e = slot(&self.items, i);
+                if e == t {
+                    return (i, true);
+                }
+                if e > t {
+                    return (i, false);
+                }
+            }
+            i += 1;
+        }
+        (self.n, false)
+    }
+    pub fn contains(&self, t: &T) -> bool {
+        self.search(t).1
+    }
+    pub fn insert(&mut self, t: T) -> bool {
+        let (pos, found) = self.search(&t);
+        if found {
+            return false;
+        }
+        insert_at(&mut self.items, pos, self.n, t);
+        self.n += 1;
+        true
+    }
+    pub fn iter(&self) -> SetIter<'_, T> {
+        SetIter { items: &self.items, n: self.n, i: 0 }
+    }
+}
+pub struct SetIter<'a, T> {
+    items: &'a [Option<T>; CAP],
+    n: usize,
+    i: usize,
+}
+impl<'a, T> Iterator for SetIter<'a, T> {
+    type Item = &'a T;
+    fn next(&mut self) -> Option<&'a T> {
+        if self.i >= self.n {
+            return None;
+        }
+        let t = slot(self.items, self.i);
+        self.i += 1;
+        Some(t)
+    }
+}
+impl<'a, T: Ord> IntoIterator for &'a BTreeSet<T> {
+    type Item = &'a T;
+    type IntoIter = SetIter<'a, T>;
+    fn into_iter(self) -> SetIter<'a, T> {
+        self.iter()
+    }
+}
+
+pub struct BTreeMap<K, V> {
+    items: [Option<(K, V)>; CAP],
+    n: usize,
+}
+impl<K, V> Default for BTreeMap<K, V> {
+    fn default() -> Self {
+        BTreeMap { items: [None, None, None, None], n: 0 }
+    }
+}
+impl<K: Ord, V> BTreeMap<K, V> {
+    pub fn new() -> Self {
+        Self::default()
+    }
+    pub fn len(&self) -> usize {
+        self.n
+    }
+    fn search(&self, k: &K) -> (usize, bool) {
+        let mut i = 0;
+        while i < CAP {
+            if i < self.n {
+                let e = &slot(&self.items, i).0;
+                if e == k {
+                    return (i, true);
+                }
+                if e > k {
+                    return (i, false);
+                }
+            }
+            i += 1;
+        }
+        (self.n, false)
+    }
+    pub fn entry(&mut self, k: K) -> BEntry<'_, K, V> {
+        let (pos, found) = self.search(&k);
+        if found {
+            BEntry::Occupied(BOccupied { m: self, i: pos })
+        } else {
+            BEntry::Vacant(BVacant { m: self, k, pos })
+        }
+    }
+    pub fn values_mut(&mut self) -> BValuesMut<'_, K, V> {
+        BValuesMut { it: self.items.iter_mut(), left: self.n }
+    }
+    pub fn into_values(self) -> BIntoValues<K, V> {
+        BIntoValues { items: self.items, n: self.n, i: 0 }
+    }
+}
+pub enum BEntry<'a, K, V> {
+    Occupied(BOccupied<'a, K, V>),
+    Vacant(BVacant<'a, K, V>),
+}
+pub struct BOccupied<'a, K, V> {
+    m: &'a mut BTreeMap<K, V>,
+    i: usize,
+}
+pub struct BVacant<'a, K, V> {
+    m: &'a mut BTreeMap<K, V>,
+    k: K,
+    pos: usize,
+}
+impl<'a, K, V> BOccupied<'a, K, V> {
+    pub fn get_mut(&mut self) -> &mut V {
+        match slot_mut(&mut self.m.items, self.i) {
+            Some(kv) => &mut kv.1,
+            None => panic!("verif_map: empty slot"),
+        }
+    }
+}
+impl<'a, K, V> BVacant<'a, K, V> {
+    pub fn insert(self, v: V) -> &'a mut V {
+        insert_at(&mut self.m.items, self.pos, self.m.n, (self.k, v));
+        self.m.n += 1;
+        match slot_mut(&mut self.m.items, self.pos) {
+            Some(kv) => &mut kv.1,
+            None => panic!("verif_map: empty slot"),
+        }
+    }
+}
+pub struct BValuesMut<'a, K, V> {
+    it: std::slice::IterMut<'a, Option<(K, V)>>,
+    left: usize,
+}
+impl<'a, K, V> Iterator for BValuesMut<'a, K, V> {
+    type Item = &'a mut V;
+    fn next(&mut self) -> Option<&'a mut V> {
+        if self.left == 0 {
+            return None;
+        }
+        self.left -= 1;
+        match self.it.next() {
+            Some(Some(kv)) => Some(&mut kv.1),
+            _ => None,
+        }
+    }
+}
+pub struct BIntoValues<K, V> {
+    items: [Option<(K, V)>; CAP],
+    n: usize,
+    i: usize,
+}
+impl<K, V> Iterator for BIntoValues<K, V> {
+    type Item = V;
+    fn next(&mut self) -> Option<V> {
+        if self.i >= self.n {
+            return None;
+        }
+        let j = self.i;
+        self.i += 1;
+        match slot_mut(&mut self.items, j).take() {
+            Some(kv) => Some(kv.1),
+            None => None,
+        }
+    }
+}
